@@ -77,6 +77,8 @@ def jump_features(body):
                 common += 1
             if len(gstack) > common and common >= 1 and len(lstack) == common:
                 f.add("goto-out-of-for-into-enclosing-for")
+            if len(gstack) > common:
+                f.add("goto-out-of-for")
     return f
 
 
